@@ -1,315 +1,1281 @@
-"""C10 symmetries and decompositions (structural clauses)."""
+"""C10 symmetries and decompositions: the functions are evaluated in small concrete worlds (sa.symex)."""
 from __future__ import annotations
 
-import ast
+import itertools
 
-from ..model import (AnalysisError, U, Defs, calls_in, call_name, walk_fn, kwarg, enclosing, enclosing_stmt, short)
-from ..pathcond import conditions
-from . import common
+from ..model import AnalysisError
+from ..symex import Symex, Obj, ClassRef
+from ..terms import T, sym, strip, expand_products, is_num, show
 
 EXPLANATION = (
-    "R10a: sign pairing: wherever a branch tests (A + B) for zero the symmetry factor recorded or "
-    "assumed in that branch is -1, and +1 for (A - B): Term.symmetry, exploit_perm_sym, "
-    "LazyTermMap.probe_symmetry, EriOrbenergy.denom_eri_sym, _compare_remainder. R10b: the "
-    "partitions by_delta_types/by_delta_indices/by_tensor_block/by_tensor_target_block/"
-    "by_tensor_target_indices add every term to exactly one ret[key] on every path (objects "
-    "with exponent n contribute n labels); exploit_perm_sym adds a term unless it was removed, "
-    "and a term is removed only when the simplified sum/difference with the permuted term is zero, "
-    "together with recording (perms, factor); candidates are re-checked against removed_terms for "
-    "every permutation. R10c: only the declared symmetry is probed (tensor built from the requested "
-    "upper/lower split, bra-ket symmetry and class). R10d: probe_symmetry maps the permuted term's "
-    "index onto the index of the unpermuted term it equals; permutation objects are canonical "
-    "(Permutation sorts its two indices, products keep the order inside linked spaces).")
+    "Every function is evaluated abstractly (sa.symex) in small worlds: an expression is a list of abstract terms whose "
+    "values live in a tiny exact algebra (products of antisymmetric/symmetric/plain tensors over index labels with integer "
+    "coefficients; transpositions applied one after another); every `X is S.Zero` / `X == 0` / `is_number` test of the "
+    "analysed code is decided by that algebra (oracle of the evaluator), `permute` stays symbolic and is interpreted by "
+    "the world, `simplify`, `factor_eri_parts`, `factor_denom`, `.expand()`, `.copy()`, `.factor()`, `.sympy`, `Expr(..)` "
+    "are value preserving, index generators return the requested labels. The verdicts compare what a function returns "
+    "with the value it stands for; local names, statement layout, helper functions, loop forms and the spelling of "
+    "calls do not enter. R10a (sign pairing): in worlds where P X = +X' under a requested factor -1 (P X = -X' under "
+    "+1) exploit_perm_sym must not merge and probe_symmetry must not map anything, and a term that is itself "
+    "f-symmetric needs no partner; Term.symmetry reports for every permutation it returns the factor with which the "
+    "world maps the term onto itself; denom_eri_sym returns factor*(+1 | -1) | None for P D = D | -D | another bracket and "
+    "omits permutations that annihilate D, returns the symmetry of the remainder for a numeric denominator and "
+    "forwards the restriction when it determines that symmetry itself; _compare_remainder returns +1 / -1 / None for "
+    "equal / negated / incompatible remainders (also when the remainders differ in names of contracted indices). R10b "
+    "(lossless decompositions): by_delta_types, by_delta_indices, by_tensor_block, by_tensor_target_block and "
+    "by_tensor_target_indices return every term exactly once with coefficient 1 in the part whose key is the key of the "
+    "documented rule (labels with exponent multiplicity, sorted, 'none' / 'no_<name>' defaults, spin suffix); "
+    "filter_tensor keeps exactly the terms of the documented low / medium / high tables (exponent multiplicity, ignored "
+    "amplitudes); exploit_perm_sym: re-expanding the returned parts, sum over parts and their terms t of "
+    "(t + sum_(P,f) f P t), gives the value of the input in every world (Klein four group where two permutations reach "
+    "the same term, the four terms ia/ja/ib/jb, one deviating prefactor, three-cycles, self-(anti)symmetric and "
+    "annihilated terms, unique terms, terms with denominators, numbers) and one term is kept per orbit. R10c (declared "
+    "symmetry): every (P, f) recorded by exploit_perm_sym is an item of the symmetry of its single probe tensor; that "
+    "tensor has the requested class, the requested upper/lower split with the requested spins and the bra-ket "
+    "symmetry (0 without explicit targets); inconsistent requests (bra-ket symmetry without separator, spin "
+    "incompatible with the split, foreign target indices or spins, terms with different targets) are refused; "
+    "LazyTermMap.evaluate probes the (anti)symmetric tensor that carries all target indices in one slot; Obj.symmetry "
+    "is the only_target symmetry of an expression of the object whose target indices are the chosen index set; "
+    "Term.symmetry returns exactly the non-trivial elements of the stabiliser of the term that move only the selected "
+    "indices (all / contracted / target) inside one (space, spin) class - nothing outside, nothing missing. R10d: "
+    "probe_symmetry returns {i: j | P t_i = f t_j, i != j, P valid on t_i, t_i not itself f-symmetric} of the world "
+    "(three-cycle worlds distinguish a map from its inverse), stores it under (permutations, factor) and refuses "
+    "non-target indices and factors other than +-1; Permutation(p, q) = Permutation(q, p) = the canonically ordered "
+    "pair; PermutationProduct keeps the order of the permutations inside a group of linked (space, spin) classes "
+    "and orders independent groups canonically (compared with a union-find reference on 15 products).")
 ASSUMPTIONS = [
-    "completeness of Term.symmetry (that all permutations are enumerated) is not decided",
-    "simplify is used as zero test (C07)",
+    "bounded: only the worlds listed in the rule module (at most 5 terms, at most 8 index labels) are evaluated",
+    "simplify / factor_eri_parts / factor_denom are value preserving and simplify is a complete zero test (C07)",
+    "the prefilter keys of exploit_perm_sym / LazyTermMap._prescan_terms (object descriptions) never separate terms "
+    "that are related by a permutation of target indices: related terms of a world share the description",
+    "Term.permute applies the transpositions one after another (C09)",
+    "the guards that skip annihilating permutations in exploit_perm_sym / probe_symmetry are not required: without "
+    "them the returned value is the same (0 never matches a non-zero term)",
+    "LazyTermMap.evaluate: that every symmetry item is looked up through __getitem__ is not decided",
+    "LazyTermMap.__getitem__ (cache lookup through re-ordered / inverted permutation products) is not checked",
 ]
 
+ZERO = sym("S.Zero")
+ONE = sym("one")
+VALUE_CALLS = ("simplify", "Expr", "sympify")
+VALUE_MCALLS = ("expand", "copy", "factor", "doit")
+VALUE_ATTRS = ("sympy",)
 
-def _zero_tests(fn):
-    """(node, op, left, right, polarity_is_zero) for `X is S.Zero` tests of sums/differences,
-    directly or through a local that is assigned `simplify(...)` of a sum/difference"""
-    out = []
-    for n in walk_fn(fn):
-        if isinstance(n, ast.Compare) and len(n.ops) == 1 and isinstance(n.ops[0], (ast.Is, ast.IsNot)) \
-                and U(n.comparators[0]) == "S.Zero":
-            left = n.left
-            if isinstance(left, ast.BinOp) and isinstance(left.op, (ast.Add, ast.Sub)):
-                out.append((n, left))
-    for a in walk_fn(fn):
-        if isinstance(a, ast.Assign) and isinstance(a.value, ast.Call) and a.value.args:
-            arg = a.value.args[0]
-            if isinstance(arg, ast.BinOp) and isinstance(arg.op, (ast.Add, ast.Sub)) and "simplify" in U(a.value.func):
-                out.append((a, arg))
+
+# ------------------------------------------------------------------------------------------ the exact algebra
+class Uninterpreted(Exception):
+    pass
+
+
+def F(name, upper="", lower="", kind="anti"):
+    """One tensor factor: kind 'anti' (antisymmetric within upper and within lower), 'sym', 'plain'."""
+    return (name, kind, tuple(upper), tuple(lower))
+
+
+def _sort_sign(xs):
+    xs = list(xs)
+    sign = 1
+    for i in range(len(xs)):
+        for j in range(len(xs) - 1 - i):
+            if xs[j] > xs[j + 1]:
+                xs[j], xs[j + 1] = xs[j + 1], xs[j]
+                sign = -sign
+    return sign, tuple(xs)
+
+
+def mono_canon(mono):
+    """(sign, canonical monomial) or (0, None)."""
+    sign, out = 1, []
+    for name, kind, up, lo in mono:
+        if kind == "anti":
+            if len(set(up)) != len(up) or len(set(lo)) != len(lo):
+                return 0, None
+            s1, up = _sort_sign(up)
+            s2, lo = _sort_sign(lo)
+            sign *= s1 * s2
+        elif kind == "sym":
+            up, lo = tuple(sorted(up)), tuple(sorted(lo))
+        out.append((name, kind, up, lo))
+    return sign, tuple(sorted(out))
+
+
+def mono_permute(mono, perms):
+    """Transpositions applied one after another."""
+    for p, q in perms:
+        sw = {p: q, q: p}
+        mono = tuple((n, k, tuple(sw.get(x, x) for x in up), tuple(sw.get(x, x) for x in lo)) for n, k, up, lo in mono)
+    return mono
+
+
+def lin_add(a, b, cb=1):
+    out = dict(a)
+    for k, v in b.items():
+        out[k] = out.get(k, 0) + cb * v
+        if out[k] == 0:
+            del out[k]
     return out
 
 
-def r10a(ctx):
-    rule = "R10a"
-    n_sites = 0
-    # --- context driven sites
-    for ref, ctxvar in (("sort_expr:exploit_perm_sym", "factor"), ("symmetry:LazyTermMap.probe_symmetry", "sym_factor")):
-        fn = ctx.model.fn(ref)
-        lab = ref.split(":")[1]
-        for node, binop in _zero_tests(fn):
-            conds = conditions(node)
-            if (f"{ctxvar} == -1", True) in conds:
-                want = ast.Add
-            elif (f"{ctxvar} == 1", True) in conds or (f"{ctxvar} == -1", False) in conds:
-                want = ast.Sub
+def lin_of(coeff, mono):
+    s, c = mono_canon(mono)
+    return {c: coeff * s} if s and coeff else {}
+
+
+class World:
+    """Terms t0..tn-1 = coeff * monomial; `invalid`: (i, perms) that annihilate the term."""
+
+    def __init__(self, name, terms, groups=None, denom=False, invalid=()):
+        self.name, self.terms, self.denom = name, terms, denom
+        self.groups = groups or ["g"] * len(terms)
+        self.invalid = set(invalid)
+        self.alias = {}     # monomials that are equal in value (renamed contracted indices) but counted as separate terms
+
+    def term(self, i):
+        return lin_of(*self.terms[i])
+
+    def permuted(self, i, perms):
+        perms = tuple(tuple(p) for p in perms)
+        if (i, perms) in self.invalid:
+            return {}
+        c, m = self.terms[i]
+        return lin_of(c, mono_permute(m, perms))
+
+    def total(self):
+        out = {}
+        for i in range(len(self.terms)):
+            out = lin_add(out, self.term(i))
+        return out
+
+    # ---- interpretation of evaluated terms
+    def factor_lin(self, f):
+        if f == ONE:
+            return {"1": 1}
+        if isinstance(f, T) and f.op == "sym" and str(f.args[0]).startswith("t") and str(f.args[0])[1:].isdigit():
+            return self.term(int(f.args[0][1:]))
+        if isinstance(f, T) and f.op == "mcall" and f.args[1] == "permute":
+            recv = f.args[0]
+            if isinstance(recv, T) and recv.op == "sym" and str(recv.args[0])[1:].isdigit():
+                return self.permuted(int(recv.args[0][1:]), [perm_labels(p) for p in f.args[2]])
+        raise Uninterpreted(show(f))
+
+    def lin(self, x, syntactic=False):
+        x = strip(_bound_calls(x), VALUE_CALLS, VALUE_MCALLS, VALUE_ATTRS)
+        out = {}
+        for c, fs in expand_products(x):
+            if not fs:
+                out = lin_add(out, {"1": c})
+            elif len(fs) == 1:
+                out = lin_add(out, self.factor_lin(fs[0]), c)
             else:
+                raise Uninterpreted(show(x))
+        if self.alias and not syntactic:
+            out2 = {}
+            for k, v in out.items():
+                out2 = lin_add(out2, {self.alias.get(k, k): v})
+            out = out2
+        return out
+
+
+def _bound_calls(x):
+    """`m = obj.method; m(args)` is `obj.method(args)`."""
+    from ..terms import rebuild
+
+    def f(t):
+        if t.op == "call" and isinstance(t.args[0], T) and t.args[0].op == "attr":
+            return T("mcall", t.args[0].args[0], t.args[0].args[1], t.args[1], t.args[2])
+        return t
+    return rebuild(x, f)
+
+
+def perm_labels(p):
+    """('i', 'j') of a permutation atom: a 2-letter string or a pair of index records (frozen to symbols)."""
+    if isinstance(p, str) and len(p) == 2:
+        return (p[0], p[1])
+    if isinstance(p, tuple) and len(p) == 2:
+        return tuple(x.args[0] if isinstance(x, T) and x.op == "sym" else x.name if isinstance(x, Obj) else x for x in p)
+    raise Uninterpreted(f"permutation {p!r}")
+
+
+def make_oracle(world_of):
+    """Decides zero / number tests of the analysed code in the current world."""
+    def oracle(sx, atom):
+        w = world_of()
+        if w is None:
+            return None
+        try:
+            if atom.op == "cmp" and atom.args[0] in ("is", "=="):
+                a, b = atom.args[1], atom.args[2]
+                for x, y in ((a, b), (b, a)):
+                    if y == ZERO or (is_num(y) and y == 0 and isinstance(x, T)):
+                        return not w.lin(x)
+                if atom.args[0] == "==":
+                    for x, y in ((a, b), (b, a)):
+                        if isinstance(x, T) and x.op == "call" and x.args[0] == "len" and isinstance(y, int):
+                            return max(1, len(w.lin(x.args[1][0], syntactic=True))) == y
+                if isinstance(a, T) and isinstance(b, T):
+                    try:    # X == -Y spelled without the zero
+                        return w.lin(a) == w.lin(b)
+                    except Uninterpreted:
+                        return None
+            if atom.op == "attr" and atom.args[1] == "is_number":
+                return set(w.lin(atom.args[0])) <= {"1"}
+            if atom.op == "attr" and atom.args[1] == "is_zero":
+                return not w.lin(atom.args[0])
+            if atom.op == "isinstance" and atom.args[1] == "NonSymmetricTensor":
+                return False
+        except Uninterpreted as e:
+            raise AnalysisError(f"C10 world {w.name}: the test `{show(atom)[:200]}` is outside the algebra ({e})")
+        return None
+    return oracle
+
+
+def h_permute(sx, a, kw):
+    recv = a[0].term if isinstance(a[0], Obj) else a[0]
+    from ..symex import _freeze
+    return T("mcall", recv, "permute", tuple(_freeze(p) for p in a[1:]), ())
+
+
+def h_self(sx, a, kw):
+    return a[0]
+
+
+def h_parts(sx, a, kw):
+    """factor_eri_parts / factor_denom: a decomposition whose parts add up to the argument."""
+    return [a[0] if a else next(iter(kw.values()))]
+
+
+def term_objs(n, **common):
+    out = []
+    for i in range(n):
+        o = Obj(None, f"t{i}")
+        o.attrs.update(sympy=T("attr", sym(f"t{i}"), "sympy"), **{k: (v(i) if callable(v) else v) for k, v in common.items()})
+        o.attrs["permute"] = lambda sx, a, kw, o=o: h_permute(sx, [o] + list(a), kw)
+        out.append(o)
+    return out
+
+
+def index(name, space, spin=""):
+    o = Obj(None, name)
+    o.attrs.update(name=name, space=space, spin=spin, space_and_spin=(space, spin), _str=name + ("_" + spin if spin else ""))
+    return o
+
+
+def h_str(sx, a, kw):
+    if len(a) == 1 and isinstance(a[0], Obj) and "_str" in a[0].attrs:
+        return a[0].attrs["_str"]
+    return NotImplemented
+
+
+def one_return(ctx, rule, fn, outs, what, key):
+    rets = [o for o in outs if o.kind == "return"]
+    if len(outs) != 1 or len(rets) != 1:
+        ctx.bad(rule, fn, f"{what}: expected one returning evaluation, got {[repr(o)[:160] for o in outs][:4]}", key=key)
+        return None
+    return rets[0]
+
+
+# ------------------------------------------------------------------------------------------ R10b partitions
+def _label(space, spin):
+    return space if all(c == "n" for c in spin) else f"{space}_{spin}"
+
+
+def _partition_scenarios():
+    """(function, t_name, builder of term records, expected key of a term description)"""
+    I = dict(i=("occ", ""), j=("occ", ""), k=("occ", "a"), a=("virt", ""), b=("virt", "b"), c=("virt", ""))
+    # every term: deltas [(space, spin, exponent, idx)], tensors [(name, space, spin, exponent, idx)], target
+    TERMS = [
+        dict(deltas=[], tensors=[], target="ia"),
+        dict(deltas=[("oo", "nn", 1, "ij")], tensors=[("V", "oovv", "nnnn", 1, "ijac")], target="ia"),
+        dict(deltas=[("vv", "nb", 2, "ab"), ("oo", "nn", 1, "ij")], tensors=[("V", "ovvv", "nnbn", 2, "iabc"), ("f", "ov", "nn", 1, "ia")],
+             target="ib"),
+        dict(deltas=[("oo", "nn", 1, "ij"), ("vv", "nb", 1, "ab")], tensors=[("f", "vv", "nn", 1, "ac")], target="ka"),
+        dict(deltas=[("oo", "an", 1, "ki")], tensors=[("V", "oovv", "annb", 1, "kjab"), ("V", "oovv", "nnnn", 1, "ijac")], target="kb"),
+        dict(deltas=[("oo", "nn", 1, "ji")], tensors=[("V", "vvvv", "nnbn", 1, "acbc"), ("V", "oo", "nn", 1, "ij")], target="ij"),
+    ]
+
+    def k_delta_types(t, _):
+        ls = sorted(_label(sp, s) for sp, s, n, _i in t["deltas"] for _ in range(n))
+        return tuple(ls) or ("none",)
+
+    def k_delta_indices(t, _):
+        ls = sorted("".join(x + ("_" + I[x][1] if I[x][1] else "") for x in ix) for sp, s, n, ix in t["deltas"] for _ in range(n))
+        return tuple(ls) or ("none",)
+
+    def k_tensor_block(t, name):
+        ls = sorted(_label(sp, s) for nm, sp, s, n, _i in t["tensors"] if nm == name for _ in range(n))
+        return tuple(ls) or ("none",)
+
+    def k_target_block(t, name):
+        ls = []
+        for nm, sp, s, n, ix in t["tensors"]:
+            if nm != name:
                 continue
-            n_sites += 1
-            ctx.check(rule, binop, isinstance(binop.op, want),
-                      f"{lab}: factor {'-1' if want is ast.Add else '+1'} tested with `{'+' if want is ast.Add else '-'}`",
-                      f"{lab}: under symmetry factor {'-1' if want is ast.Add else '+1'} the test uses `{short(binop, 60)}`; "
-                      f"P X = {'-' if want is ast.Add else '+'}X' is equivalent to P X {'+' if want is ast.Add else '-'} X' = 0",
-                      key=f"{lab} {'-1' if want is ast.Add else '+1'} {short(binop, 40)}")
-    # --- value driven sites
-    ts = ctx.model.fn("expr_container:Term.symmetry")
-    for a in walk_fn(ts):
-        if isinstance(a, ast.Assign) and U(a.targets[0]) == "symmetry[perms]":
-            conds = conditions(a)
-            plus = any(pol and t.replace(" ", "") == "original_term+permutedisS.Zero" for t, pol in conds)
-            minus = any(pol and t.replace(" ", "") == "original_term-permutedisS.Zero" for t, pol in conds)
-            v = U(a.value).replace("+", "")
-            n_sites += 1
-            ok = (plus and v == "-1") or (minus and not plus and v == "1")
-            ctx.check(rule, a, ok, f"Term.symmetry: {'X + PX = 0 -> -1' if plus else 'X - PX = 0 -> +1'}",
-                      f"Term.symmetry records factor {v} under the test {'X + PX = 0' if plus else 'X - PX = 0'}", key=f"Term.symmetry {v}")
-    des = ctx.model.fn("eri_orbenergy:EriOrbenergy.denom_eri_sym")
-    for a in walk_fn(des):
-        if isinstance(a, ast.Assign) and U(a.targets[0]) == "ret[perms]" and U(a.value) != "None":
-            conds = conditions(a)
-            same = ("denom - perm_denom is S.Zero", True) in conds
-            opp = ("denom + perm_denom is S.Zero", True) in conds
-            v = U(a.value).replace(" ", "")
-            n_sites += 1
-            ok = (same and v == "factor") or (opp and not same and v in ("factor*-1", "-factor", "-1*factor"))
-            ctx.check(rule, a, ok, f"denom_eri_sym: {'P D = D keeps' if same else 'P D = -D negates'} the ERI factor",
-                      f"denom_eri_sym records `{v}` under {'D - PD = 0' if same else 'D + PD = 0' if opp else 'an unknown test'}",
-                      key=f"denom_eri_sym {v}")
-    cr = ctx.model.fn("factor_intermediates:_compare_remainder") if ctx.model.has_fn("factor_intermediates:_compare_remainder") else None
-    if cr is not None:
-        tests = [(n, b) for n, b in _zero_tests(cr)]
-        for node, b in tests:
-            n_sites += 1
-            # difference form: equality of the two remainders <-> +1
-            st = enclosing_stmt(node)
-            ctx.check(rule, b, isinstance(b.op, ast.Sub), "_compare_remainder: equality tested with a difference",
-                      f"_compare_remainder tests `{short(b, 60)}` for zero", key="_compare_remainder")
-    ctx.floor(rule, "sign-pairing sites", n_sites, 9)
+            tg = [x for x in ix if x in t["target"]]
+            if not tg:
+                ls.append("none")
+                continue
+            lab = "".join(I[x][0][0] for x in tg)
+            if any(I[x][1] for x in tg):
+                lab += "_" + "".join(I[x][1] or "n" for x in tg)
+            ls.append(lab)
+        return tuple(sorted(ls)) or (f"no_{name}",)
+
+    def k_target_indices(t, name):
+        ls = []
+        for nm, sp, s, n, ix in t["tensors"]:
+            if nm != name:
+                continue
+            ls.append("".join(x for x in ix if x in t["target"]) or "none")
+        return tuple(sorted(ls)) or (f"no_{name}",)
+
+    return I, TERMS, [("by_delta_types", None, k_delta_types), ("by_delta_indices", None, k_delta_indices),
+                      ("by_tensor_block", "V", k_tensor_block), ("by_tensor_block", "f", k_tensor_block),
+                      ("by_tensor_target_block", "V", k_target_block), ("by_tensor_target_block", "f", k_target_block),
+                      ("by_tensor_target_block", "Q", k_target_block),
+                      ("by_tensor_target_indices", "V", k_target_indices), ("by_tensor_target_indices", "f", k_target_indices),
+                      ("by_tensor_target_indices", "Q", k_target_indices)]
 
 
-def _partition(ctx, rule, fnref, key_checks):
-    fn = ctx.model.fn(fnref)
-    lab = fnref.split(":")[1]
-    lp = [n for n in walk_fn(fn) if isinstance(n, ast.For) and U(n.iter) == "expr.terms"]
-    ctx.floor(rule, f"term loop in {lab}", len(lp), 1)
-    lp = lp[0]
-    t = U(lp.target)
+def _mk_partition_expr(I, TERMS):
+    pool = {n: index(n, sp, s) for n, (sp, s) in I.items()}
+    terms = []
+    for n, d in enumerate(TERMS):
+        t = Obj(None, f"t{n}")
+        t.attrs.update(
+            deltas=[Obj(None, f"t{n}.d{k}", space=sp, spin=s, exponent=e, idx=tuple(pool[x] for x in ix))
+                    for k, (sp, s, e, ix) in enumerate(d["deltas"])],
+            tensors=[Obj(None, f"t{n}.o{k}", space=sp, spin=s, exponent=e, idx=tuple(pool[x] for x in ix))
+                     for k, (nm, sp, s, e, ix) in enumerate(d["tensors"])],
+            target=tuple(pool[x] for x in d["target"]), assumptions={"real": True}, sympy=T("attr", sym(f"t{n}"), "sympy"))
+        for o, (nm, *_r) in zip(t.attrs["tensors"], d["tensors"]):
+            o.attrs["name"] = nm
+        terms.append(t)
+    ex = Obj(None, "expr", terms=terms, _classes=("Expr",), assumptions={"real": True}, sympy=sym("expr.sympy"))
+    return ex
 
-    def is_event(n):
-        return isinstance(n, ast.AugAssign) and isinstance(n.op, ast.Add) and U(n.target).startswith("ret[") and U(n.value) == t
-    acc, drops = common.loop_conservation(ctx, rule, fn, lp, t, is_event=is_event)
-    common.lost(ctx, rule, lp, t, drops)
-    for text, what in key_checks:
-        body = " ; ".join(U(s) for s in ast.walk(lp) if isinstance(s, ast.stmt))
-        ctx.check(rule, lp, text in body, f"{lab}: {what}", f"{lab}: `{text}` not found ({what})", key=f"{lab} {what}")
-    r = common.returns_of(fn)
-    ctx.check(rule, fn, U(r[-1].value) == "ret", f"{lab}: all parts returned", f"{lab}: returns `{U(r[-1].value)}`", key=f"{lab} return")
+
+def _parts_of(value):
+    """{term number: coefficient} of an accumulated part; None if something else was added."""
+    v = strip(value, VALUE_CALLS, VALUE_MCALLS, VALUE_ATTRS)
+    out = {}
+    for c, fs in expand_products(v):
+        if len(fs) == 1 and isinstance(fs[0], T) and fs[0].op == "sym" and str(fs[0].args[0])[1:].isdigit() \
+                and str(fs[0].args[0])[0] == "t":
+            n = int(fs[0].args[0][1:])
+            out[n] = out.get(n, 0) + c
+        else:
+            return None
+    return out
 
 
-def r10b(ctx):
+def _sort_inline(q):
+    return q.startswith("sort_expr:")
+
+
+def r10b_partitions(ctx):
     rule = "R10b"
-    _partition(ctx, rule, "sort_expr:by_delta_types", [
-        ("d_blocks.extend((block for _ in range(delta.exponent)))", "a delta with exponent n contributes n labels"),
-        ("for delta in term.deltas:", "labels from all deltas of the term"),
-        ("d_blocks = tuple(sorted(d_blocks))", "key independent of the object order"),
-        ("block = f'{delta.space}_{spin}'", "spin part of the label"),
-    ])
-    _partition(ctx, rule, "sort_expr:by_delta_indices", [
-        ("d_idx = tuple(sorted((''.join((str(s) for s in o.idx)) for o in term.deltas for _ in range(o.exponent))))",
-         "index names of every delta, exponent-many times, sorted"),
-    ])
-    _partition(ctx, rule, "sort_expr:by_tensor_block", [
-        ("t_blocks.extend((block for _ in range(tensor.exponent)))", "a tensor with exponent n contributes n labels"),
-        ("if tensor.name != t_name:", "only the requested tensor"),
-        ("t_blocks = tuple(sorted(t_blocks))", "key independent of the object order"),
-    ])
-    _partition(ctx, rule, "sort_expr:by_tensor_target_block", [
-        ("tensor_target = [s for s in tensor.idx if s in target]", "target indices on the tensor"),
-        ("key = tuple(sorted(key))", "key independent of the object order"),
-        ("if tensor.name == t_name:", "only the requested tensor"),
-    ])
-    _partition(ctx, rule, "sort_expr:by_tensor_target_indices", [
-        ("obj_target_idx = ''.join([s.name for s in obj.idx if s in target])", "names of the target indices on the tensor"),
-        ("key = tuple(sorted(key))", "key independent of the object order"),
-    ])
-    ft = ctx.model.fn("simplify:filter_tensor")
-    f = [a for a in common.assigns_to(ft, "filtered")]
-    ctx.check(rule, ft, len(f) == 1 and U(f[0].value) == "Add(*[term.sympy for term in expr.terms if check_term(term)])",
-              "filter_tensor keeps exactly the terms accepted by check_term", "filter_tensor term selection changed", key="filter_tensor")
-    av = [a for a in walk_fn(ft) if isinstance(a, ast.Assign) and U(a.targets[0]) == "available" and isinstance(a.value, ast.ListComp)]
-    ctx.check(rule, ft, any(U(a.value) == "[o.name for o in term.tensors for _ in range(o.exponent)]" for a in av),
-              "tensor names counted with exponent multiplicity", "multiplicity in filter_tensor changed", key="filter multiplicity")
-    # exploit_perm_sym
+    I, TERMS, scen = _partition_scenarios()
+    hooks = {"expand": h_self, "str": h_str}
+    n = 0
+    for fname, t_name, keyfn in scen:
+        fn = ctx.model.fn(f"sort_expr:{fname}")
+        sx = Symex(ctx.model, inline=_sort_inline, hooks=hooks, what=fname)
+        args = (lambda: dict(expr=_mk_partition_expr(I, TERMS), t_name=t_name)) if t_name is not None else \
+            (lambda: dict(expr=_mk_partition_expr(I, TERMS)))
+        what = f"{fname}({'' if t_name is None else repr(t_name)})"
+        o = one_return(ctx, rule, fn, sx.run(fn, args), what, key=f"{what} shape")
+        if o is None:
+            continue
+        if not isinstance(o.value, dict):
+            ctx.bad(rule, fn, f"{what} does not return the dict of parts: {show(o.value)[:200]}", key=f"{what} return")
+            continue
+        got = {}
+        clean = True
+        for k, v in o.value.items():
+            p = _parts_of(v)
+            if p is None:
+                clean = False
+                ctx.bad(rule, fn, f"{what}: part {k} is not a sum of terms of the expression: {show(v)[:200]}", key=f"{what} part {k}")
+                continue
+            for i, c in p.items():
+                got.setdefault(i, []).append((k, c))
+        if not clean:
+            continue
+        for i, d in enumerate(TERMS):
+            want = keyfn(d, t_name)
+            g = got.get(i, [])
+            n += 1
+            ctx.check(rule, fn, g == [(want, 1)], f"{what}: term {i} lands once in the part {want}",
+                      f"{what}: term {i} (deltas {d['deltas']}, tensors {d['tensors']}, target {d['target']}) is "
+                      + (f"lost (expected in the part {want})" if not g else f"found in {g}, expected once in the part {want}"),
+                      key=f"{what} term {i}")
+    ctx.floor(rule, "partition placements evaluated", n, 50)
+    # input guard of the tensor name
+    for fname in ("by_tensor_block", "by_tensor_target_block", "by_tensor_target_indices"):
+        fn = ctx.model.fn(f"sort_expr:{fname}")
+        sx = Symex(ctx.model, inline=_sort_inline, hooks=hooks, what=fname)
+        outs = sx.run(fn, lambda: dict(expr=_mk_partition_expr(I, TERMS), t_name=7))
+        ctx.check(rule, fn, bool(outs) and all(o.kind == "raise" for o in outs), f"{fname}: a tensor name that is not a string is refused",
+                  f"{fname}: accepts the tensor name 7", key=f"{fname} name guard")
+
+
+# ------------------------------------------------------------------------------------------ R10b filter_tensor
+def r10b_filter(ctx):
+    rule = "R10b"
+    fn = ctx.model.fn("simplify:filter_tensor")
+    TERMS = [[("V", 1)], [("V", 2)], [("V", 1), ("f", 1)], [("f", 1)], [("V", 1), ("t1", 1)], [("V", 2), ("Y", 1)], [],
+             [("V", 1), ("V", 1)], [("t1", 1), ("Y", 1)]]
+    amp = lambda nm: nm in ("X", "Y") or nm.startswith("t")   # noqa: E731
+
+    def avail(t):
+        return [nm for nm, e in t for _ in range(e)]
+
+    def cnt(xs):
+        return {x: xs.count(x) for x in xs}
+
+    def want(t, names, strict, ignore):
+        av = avail(t)
+        if strict == "low":
+            return all(x in av for x in names)
+        if strict == "medium":
+            return all(cnt(av).get(x, 0) == c for x, c in cnt(names).items())
+        if ignore:
+            req = [x for x in names if amp(x)]
+            av = [x for x in av if not (amp(x) and x not in req)]
+        return cnt(av) == cnt(names)
+
+    def mk(names, strict, ignore):
+        terms = []
+        for n, t in enumerate(TERMS):
+            o = Obj(None, f"t{n}")
+            o.attrs.update(tensors=[Obj(None, f"t{n}.o{k}", exponent=e) for k, (nm, e) in enumerate(t)],
+                           sympy=T("attr", sym(f"t{n}"), "sympy"))
+            for x, (nm, e) in zip(o.attrs["tensors"], t):
+                x.attrs["name"] = nm
+            terms.append(o)
+        ex = Obj(None, "expr", terms=terms, _classes=("Expr",), assumptions={"real": True})
+        return dict(expr=ex, t_strings=list(names), strict=strict, ignore_amplitudes=ignore)
+
+    hooks = {"expand": h_self, "is_adc_amplitude": lambda sx, a, kw: a[0] in ("X", "Y"),
+             "is_t_amplitude": lambda sx, a, kw: isinstance(a[0], str) and a[0].startswith("t")}
+    n = 0
+    for names in (["V"], ["V", "V"], ["V", "f"], ["V", "t1"], ["Y", "V", "V"]):
+        for strict in ("low", "medium", "high"):
+            for ignore in ((True, False) if strict == "high" else (True,)):
+                sx = Symex(ctx.model, inline=lambda q: q.startswith("simplify:"), hooks=hooks, what="filter_tensor")
+                what = f"filter_tensor({names}, {strict}{', keep amplitudes' if not ignore else ''})"
+                o = one_return(ctx, rule, fn, sx.run(fn, lambda: mk(names, strict, ignore)), what, key=f"{what} shape")
+                if o is None:
+                    continue
+                p = _parts_of(_add_args(o.value))
+                exp = {i: 1 for i, t in enumerate(TERMS) if want(t, names, strict, ignore)}
+                n += 1
+                ctx.check(rule, fn, p == exp, f"{what} keeps exactly the terms {sorted(exp)}",
+                          f"{what} returns the terms {p if p is not None else show(o.value)[:200]}, the documented selection is {sorted(exp)} "
+                          f"(terms {[TERMS[i] for i in sorted(set(exp) ^ set(p or {}))]} differ)", key=what)
+    ctx.floor(rule, "filter_tensor tables", n, 15)
+    sx = Symex(ctx.model, inline=lambda q: q.startswith("simplify:"), hooks=hooks, what="filter_tensor")
+    outs = sx.run(fn, lambda: mk(["V"], "strictest", True))
+    ctx.check(rule, fn, bool(outs) and all(o.kind == "raise" for o in outs), "filter_tensor: unknown strictness refused",
+              "filter_tensor accepts an unknown strictness level", key="filter strict guard")
+
+
+def _add_args(v):
+    """`Add(*xs)` is the sum of xs."""
+    from ..terms import rebuild, t_add
+
+    def f(x):
+        if x.op == "call" and x.args[0] == "Add":
+            return t_add(*x.args[1]) if x.args[1] else 0
+        return x
+    return rebuild(v, f)
+
+
+# ------------------------------------------------------------------------------------------ exploit_perm_sym
+X = lambda u, l: F("X", u, l, "plain")   # noqa: E731
+Z = lambda u, l: F("Z", u, l, "plain")   # noqa: E731
+ANTI4 = {("ij",): -1, ("ab",): -1, ("ij", "ab"): +1}
+
+
+def _exploit_worlds():
+    """(world, declared symmetry, antisymmetric flag, rule, number of parts terms expected, note)"""
+    Y = lambda u, l: F("Y", u, l, "plain")   # noqa: E731
+    A, B, C = (lambda n: (lambda l: F(n, "", l, "plain")))("A"), (lambda l: F("B", "", l, "plain")), (lambda l: F("C", "", l, "plain"))
+    cyc = {("ij",): 1, ("ik",): 1, ("jk",): 1, ("ij", "ik"): 1, ("ij", "jk"): 1}
+    return [
+        (World("klein", [(1, (Y("a", "i"), Y("b", "j"))), (-1, (Y("a", "j"), Y("b", "i")))]), ANTI4, True, "R10b", 1,
+         "P_ij and P_ab reach the same term"),
+        (World("klein-denom", [(1, (Y("a", "i"), Y("b", "j"))), (-1, (Y("a", "j"), Y("b", "i")))], denom=True), ANTI4, True, "R10b", 1,
+         "terms with an orbital energy denominator"),
+        (World("four", [(1, (X("a", "i"), Z("b", "j"))), (-1, (X("a", "j"), Z("b", "i"))), (-1, (X("b", "i"), Z("a", "j"))),
+                        (1, (X("b", "j"), Z("a", "i")))]), ANTI4, True, "R10b", 1, "ia, ja, ib, jb"),
+        (World("four-partial", [(1, (X("a", "i"), Z("b", "j"))), (-1, (X("a", "j"), Z("b", "i"))), (5, (X("b", "i"), Z("a", "j"))),
+                                (1, (X("b", "j"), Z("a", "i")))]), ANTI4, True, "R10b", 2, "one of four terms with another prefactor"),
+        (World("wrong-sign-anti", [(1, (X("a", "i"), Z("b", "j"))), (1, (X("a", "j"), Z("b", "i")))]), {("ij",): -1}, True, "R10a", 2,
+         "P X = +X' although the tensor is antisymmetric"),
+        (World("wrong-sign-sym", [(1, (X("a", "i"), Z("b", "j"))), (-1, (X("a", "j"), Z("b", "i")))]), {("ij",): +1}, False, "R10a", 2,
+         "P X = -X' although the tensor is symmetric"),
+        (World("sym", [(1, (X("a", "i"), Z("b", "j"))), (1, (X("a", "j"), Z("b", "i")))]), {("ij",): +1}, False, "R10b", 1,
+         "symmetric result tensor"),
+        (World("cycle", [(1, (A("i"), B("j"), C("k"))), (1, (A("k"), B("i"), C("j"))), (1, (A("j"), B("k"), C("i")))]), cyc, False, "R10b", 1,
+         "terms related by three-cycles only"),
+        (World("self", [(1, (F("V", "ab", "ij"),)), (1, (X("a", "i"), Z("b", "j"))), (-1, (X("a", "j"), Z("b", "i")))],
+               groups=["gV", "g", "g"], invalid=[(1, (("a", "b"),))]), ANTI4, True, "R10b", 2,
+         "a self-antisymmetric unique term, an annihilating permutation"),
+        (World("self-sym", [(1, (F("W", "ab", "ij", "sym"),)), (1, (F("W", "ab", "ij", "sym"), F("W", "ab", "ij", "sym"))),
+                            (1, (X("a", "i"), Z("b", "j")))]), {("ij",): 1, ("ab",): 1, ("ij", "ab"): 1}, False, "R10b", 3,
+         "self-symmetric terms in one class"),
+        (World("unrelated", [(1, (X("a", "i"), Z("b", "j"))), (1, (Z("a", "i"), Z("b", "j")))]), ANTI4, True, "R10b", 2, "no relation"),
+    ]
+
+
+class _ExploitScen:
+    LABELS = dict(i=("occ", ""), j=("occ", ""), k=("occ", ""), a=("virt", ""), b=("virt", ""))
+
+    def __init__(self, world, symmetry, target="ijab"):
+        self.world, self.symmetry, self.target = world, symmetry, target
+        self.reset(None)
+
+    def reset(self, sx):
+        self.pool = {}
+        self.probes = []
+        self.sym_calls = []
+
+    def idx(self, name, spin=""):
+        k = (name, spin or "")
+        if k not in self.pool:
+            sp = self.LABELS[name][0]
+            self.pool[k] = index(name, sp, spin or "")
+        return self.pool[k]
+
+    def expr(self, number=False):
+        from ..terms import t_add, t_mul
+        w = self.world
+        tg = tuple(self.idx(x) for x in self.target)
+        terms = term_objs(len(w.terms), target=tg, assumptions={"real": True})
+        val = t_mul(3, ONE) if number else t_add(*[t.attrs["sympy"] for t in terms])
+        ex = Obj(None, "expr", terms=terms, _classes=("Expr",), assumptions={"real": True}, provided_target_idx=None, sympy=val)
+        self.expr_obj = ex
+        return ex
+
+    def hooks(self):
+        w = self.world
+
+        def eri_orbenergy(sx, a, kw):
+            t = a[0]
+            i = int(t.name[1:])
+            g = w.groups[i]
+            return Obj(None, f"eo({t.name})", denom=Obj(None, "denom", is_number=not w.denom),
+                       eri=Obj(None, "eri", objects=[Obj(None, "o", description=lambda sx, a, kw: g)], contracted=[]),
+                       denom_description=lambda sx, a, kw: ("d" if w.denom else None))
+
+        def get_symbols(sx, a, kw):
+            names = a[0] if a else kw.get("idx")
+            spins = a[1] if len(a) > 1 else kw.get("spins")
+            if not isinstance(names, str):
+                return NotImplemented
+            return [self.idx(n, spins[k] if spins else "") for k, n in enumerate(names)]
+
+        def tensor(cls):
+            def h(sx, a, kw):
+                b = dict(zip(("name", "upper", "lower", "bra_ket_sym"), a))
+                b.update(kw)
+                rec = Obj(None, "probe", tensor_class=cls, upper=tuple(b.get("upper", ())), lower=tuple(b.get("lower", ())),
+                          bra_ket_sym=b.get("bra_ket_sym", 0))
+                self.probes.append(rec)
+                return rec
+            return h
+
+        def expr(sx, a, kw):
+            if a and isinstance(a[0], Obj) and "tensor_class" in a[0].attrs:
+                rec = a[0]
+
+                def symmetry(sx, a2, kw2):
+                    self.sym_calls.append((rec, tuple(a2), dict(kw2)))
+                    return dict(self.symmetry)
+                t = Obj(None, "probe_term", symmetry=symmetry)
+                return Obj(None, "probe_expr", terms=[t])
+            return NotImplemented
+        return {"expand": h_self, "permute": h_permute, "EriOrbenergy": eri_orbenergy, "get_symbols": get_symbols,
+                "sort_idx_canonical": lambda sx, a, kw: (a[0].attrs["space"], a[0].attrs["spin"], a[0].attrs["name"]),
+                "AntiSymmetricTensor": tensor("AntiSymmetricTensor"), "SymmetricTensor": tensor("SymmetricTensor"), "Expr": expr,
+                "factor_eri_parts": h_parts, "factor_denom": h_parts}
+
+
+def _run_exploit(ctx, scen, args, what):
+    sx = Symex(ctx.model, inline=_sort_inline, hooks=scen.hooks(), what=what, oracle=make_oracle(lambda: scen.world), max_paths=64)
+    sx.on_start = scen.reset
+    return sx.run("sort_expr:exploit_perm_sym", args)
+
+
+def r10_exploit(ctx):
     fn = ctx.model.fn("sort_expr:exploit_perm_sym")
-    adds = [n for n in walk_fn(fn, nested=False) if isinstance(n, ast.AugAssign) and U(n.target).startswith("ret[")]
-    tab = sorted((U(n.target), U(n.value)) for n in adds)
-    ctx.check(rule, fn, tab == [("ret[found_sym]", "term"), ("ret[tuple()]", "terms[term_idx_list[0]]")],
-              "every surviving term added once (unique terms under the empty symmetry)", f"accumulations {tab}", key="exploit adds")
-    main = [n for n in adds if U(n.target) == "ret[found_sym]"]
-    if main:
-        lp = enclosing(main[0], ast.For)
-        ok = U(lp.iter) == "term_idx_list" and main[0]._parent is lp
-        sk = [s for s in lp.body if isinstance(s, ast.If) and U(s.test) == "term_i in removed_terms" and isinstance(s.body[-1], ast.Continue)]
-        ctx.check(rule, lp, ok and len(sk) == 1, "a term is dropped only if it was mapped onto another term",
-                  "term loop of exploit_perm_sym drops terms under another condition", key="exploit drop")
-    rm = [c for c in calls_in(fn, nested=False) if call_name(c) == "add" and U(c.func.value) == "removed_terms"]
-    ctx.floor(rule, "removal sites in exploit_perm_sym", len(rm), 1)
-    for c in rm:
-        conds = conditions(c)
-        ok = ("simplified.sympy is S.Zero", True) in conds
-        ctx.check(rule, c, ok, "a term is removed only if the sum/difference with the permuted term simplifies to zero",
-                  "removal not dominated by the zero test", key="exploit remove guard")
-        blk = enclosing_stmt(c)._parent.body if hasattr(enclosing_stmt(c)._parent, "body") else []
-        texts = [U(s) for s in blk]
-        ctx.check(rule, c, "found_sym.append((perms, factor))" in texts and U(c.args[0]) == "other_term_i",
-                  "removal recorded with the permutation and factor that reproduce the term",
-                  "removal is not paired with recording (perms, factor)", key="exploit record")
-    inner = [n for n in walk_fn(fn, nested=False) if isinstance(n, ast.For) and U(n.iter) == "term_idx_list"
-             and U(n.target) == "other_term_i"]
-    ok = len(inner) == 1 and isinstance(enclosing(inner[0], ast.For), ast.For) and U(enclosing(inner[0], ast.For).iter) == "symmetry.items()"
-    if ok:
-        first = inner[0].body[0]
-        ok = isinstance(first, ast.If) and U(first.test) == "term_i == other_term_i or other_term_i in removed_terms" \
-            and isinstance(first.body[-1], ast.Continue)
-    ctx.check(rule, fn, ok, "candidates re-checked against removed_terms for every permutation",
-              "the candidate terms are not re-checked against removed_terms inside the permutation loop: a term can be "
-              "mapped (and removed) twice", key="exploit candidates")
-    sk = [n for n in walk_fn(fn, nested=False) if isinstance(n, ast.Continue) and
-          U(n._parent.test) == "perm_term.sympy is S.Zero and term.sympy is not S.Zero"]
-    ctx.check(rule, fn, len(sk) == 1, "permutations that annihilate the term are skipped", "invalid-permutation guard changed", key="exploit invalid")
-    pt = [a for a in walk_fn(fn, nested=False) if isinstance(a, ast.Assign) and U(a.targets[0]) == "perm_term"]
-    ctx.check(rule, fn, len(pt) == 1 and U(pt[0].value) == "term.permute(*perms)", "the probed permutation is applied to the current term",
-              "permuted term changed", key="exploit permute")
-    z = [r for r in common.returns_of(fn, nested=False) if ("expr.sympy.is_number", True) in conditions(r)]
-    ctx.check(rule, fn, len(z) == 1 and U(z[0].value) == "{tuple(): expr}", "numbers returned under the empty symmetry", "number shortcut changed",
-              key="exploit number")
+    n = 0
+    for w, symm, anti, rule, n_kept, note in _exploit_worlds():
+        if not ctx.want(rule):
+            continue
+        scen = _ExploitScen(w, symm, target="ijk" if w.name == "cycle" else "ijab")
+        what = f"exploit_perm_sym[{w.name}: {note}]"
+        outs = _run_exploit(ctx, scen, lambda: dict(expr=scen.expr(), antisymmetric_result_tensor=anti), what)
+        o = one_return(ctx, rule, fn, outs, what, key=f"{w.name} shape")
+        if o is None or not isinstance(o.value, dict):
+            if o is not None:
+                ctx.bad(rule, fn, f"{what}: does not return the dict of parts", key=f"{w.name} return")
+            continue
+        total, kept, ok, foreign = {}, 0, True, []
+        for key, val in o.value.items():
+            p = _parts_of(val)
+            if p is None or any(c != 1 for c in p.values()) or not isinstance(key, tuple):
+                ok = False
+                ctx.bad(rule, fn, f"{what}: part {show(key)} is not a plain sum of terms: {show(val)[:200]}", key=f"{w.name} part")
+                continue
+            for i in p:
+                kept += 1
+                total = lin_add(total, w.term(i))
+                for pf in key:
+                    perms, f = pf if isinstance(pf, tuple) and len(pf) == 2 else (None, None)
+                    if perms not in symm or symm[perms] != f:
+                        foreign.append(pf)
+                        continue
+                    total = lin_add(total, w.permuted(i, perms), f)
+        if not ok:
+            continue
+        n += 1
+        if ctx.want("R10c"):
+            ctx.check("R10c", fn, not foreign, f"{what}: every recorded (P, f) belongs to the symmetry of the probe tensor",
+                      f"{what}: records {foreign[:3]} which is not in the declared symmetry {symm}", key=f"{w.name} declared")
+        law = total == w.total()
+        ctx.check(rule, fn, law, f"{what}: re-expansion of the parts reproduces the expression",
+                  f"{what}: applying the recorded permutations to the returned parts "
+                  f"{ {show(k): show(v) for k, v in o.value.items()} } gives a value different from the {len(w.terms)} input terms "
+                  f"(difference {_show_lin(lin_add(total, w.total(), -1))})", key=f"{w.name} lossless")
+        if law:
+            ctx.check(rule, fn, kept == n_kept, f"{what}: {n_kept} term(s) kept (one per orbit)",
+                      f"{what}: {kept} terms are kept, the {len(w.terms)} terms form {n_kept} orbit(s) under the declared symmetry",
+                      key=f"{w.name} orbits")
+    # a number is returned under the empty symmetry
+    if ctx.want("R10b"):
+        scen = _ExploitScen(World("number", [(1, (X("a", "i"),))]), ANTI4)
+        outs = _run_exploit(ctx, scen, lambda: dict(expr=scen.expr(number=True)), "exploit_perm_sym[number]")
+        o = one_return(ctx, "R10b", fn, outs, "exploit_perm_sym[number]", key="number shape")
+        if o is not None:
+            v = o.value
+            ok = isinstance(v, dict) and list(v) == [()] and (v[()] is scen.expr_obj or _parts_of(v[()]) == {})
+            ctx.check("R10b", fn, ok, "a number is returned unchanged under the empty symmetry",
+                      f"exploit_perm_sym of a number returns {show(v)[:200]}", key="number")
+        ctx.floor("R10b", "worlds of exploit_perm_sym evaluated", n, 8)
 
 
-def r10c(ctx):
+def _show_lin(l):
+    def mono(m):
+        return "1" if m == "1" else " ".join(f"{n}^{''.join(u)}_{''.join(lo)}" for n, k, u, lo in m)
+    return " + ".join(f"{c}*{mono(m)}" for m, c in sorted(l.items(), key=repr)) or "0"
+
+
+def r10c_exploit(ctx):
+    """the probe tensor carries the declared symmetry"""
     rule = "R10c"
     fn = ctx.model.fn("sort_expr:exploit_perm_sym")
-    tb = {}
-    for a in walk_fn(fn, nested=False):
-        if isinstance(a, ast.Assign) and U(a.targets[0]) == "tensor":
-            tb["anti" if ("antisymmetric_result_tensor", True) in conditions(a) else "sym"] = U(a.value)
-    ctx.check(rule, fn, tb == {"anti": "AntiSymmetricTensor('x', upper, lower, bra_ket_sym)", "sym": "SymmetricTensor('x', upper, lower, bra_ket_sym)"},
-              "probe tensor carries the requested split, bra-ket symmetry and class", f"probe tensors {tb}", key="probe tensor")
-    sy = [a for a in walk_fn(fn, nested=False) if isinstance(a, ast.Assign) and U(a.targets[0]) == "symmetry"]
-    ctx.check(rule, fn, len(sy) == 1 and U(sy[0].value) == "e.Expr(tensor).terms[0].symmetry()", "candidate permutations = symmetry of that tensor",
-              "symmetry source changed", key="symmetry source")
-    ul = {}
-    for a in walk_fn(fn, nested=False):
-        if isinstance(a, ast.Assign) and U(a.targets[0]) == "(upper, lower)":
-            cs = conditions(a)
-            k = "none" if ("target_indices is None", True) in cs else "split" if ("',' in target_indices", True) in cs else "nosplit"
-            ul[k] = U(a.value)
-    ctx.check(rule, fn, ul == {"split": "target_indices.split(',')", "nosplit": "(target_indices, '')", "none": "(ref_target, tuple())"},
-              "upper/lower from the separator; all upper without one", f"upper/lower sources {ul}", key="upper lower")
-    bz = [a for a in walk_fn(fn, nested=False) if isinstance(a, ast.Assign) and U(a.targets[0]) == "bra_ket_sym"]
-    ctx.check(rule, fn, len(bz) == 1 and U(bz[0].value) == "0" and ("target_indices is None", True) in conditions(bz[0]),
-              "bra-ket symmetry ignored without explicit targets", "bra-ket handling changed", key="bks reset")
-    ra = [n for n in walk_fn(fn, nested=False) if isinstance(n, ast.Raise) and ("bra_ket_sym", True) in conditions(n)]
-    ctx.check(rule, fn, len(ra) == 1, "bra-ket symmetry requires a separator", "separator requirement removed", key="bks separator")
-    sp = {U(a.targets[0]): U(a.value) for a in walk_fn(fn, nested=False) if isinstance(a, ast.Assign) and "spin" in U(a.targets[0])}
-    ctx.check(rule, fn, sp.get("upper_spin") == "target_spin[:len(upper)]" and sp.get("lower_spin") == "target_spin[len(upper):]"
-              and sp.get("(upper_spin, lower_spin)") in ("(None, None)", "target_spin.split(',')"), "spin split follows the index split",
-              f"spin split {sp}", key="spin split")
-    gs = {U(a.targets[0]): U(a.value) for a in walk_fn(fn, nested=False) if isinstance(a, ast.Assign) and call_name(a.value) == "get_symbols"}
-    ctx.check(rule, fn, gs == {"upper": "get_symbols(upper, upper_spin)", "lower": "get_symbols(lower, lower_spin)"},
-              "probe indices carry the requested spin", f"{gs}", key="probe indices")
-    chk = [n for n in walk_fn(fn, nested=False) if isinstance(n, ast.Raise) and ("sorted_provided_target == ref_target", False) in conditions(n)]
-    ctx.check(rule, fn, len(chk) == 1, "requested targets must be the targets of the expression", "target consistency check removed",
-              key="target check")
-    ev = ctx.model.fn("symmetry:LazyTermMap.evaluate")
-    tb = {}
-    for a in walk_fn(ev):
-        if isinstance(a, ast.Assign) and U(a.targets[0]) == "tensor" and call_name(a.value) in ("AntiSymmetricTensor", "SymmetricTensor"):
-            tb["anti" if ("antisymmetric_result_tensor", True) in conditions(a) else "sym"] = U(a.value)
-    ctx.check(rule, ev, tb == {"anti": "AntiSymmetricTensor('x', tuple(), self.target_indices)", "sym": "SymmetricTensor('x', tuple(), self.target_indices)"},
-              "term map probes the symmetry of the target indices", f"{tb}", key="evaluate tensor")
-    os_ = ctx.model.fn("expr_container:Obj.symmetry")
-    r = common.returns_of(os_)
-    ctx.check(rule, os_, U(r[-1].value) == "new_expr.terms[0].symmetry(only_target=True)", "object symmetry = term symmetry of the chosen indices",
-              "Obj.symmetry changed", key="obj symmetry")
-    ts = ctx.model.fn("expr_container:Term.symmetry")
-    sel = {}
-    for a in walk_fn(ts, nested=False):
-        if isinstance(a, ast.Assign) and U(a.targets[0]) == "indices":
-            cs = conditions(a)
-            k = "contracted" if ("only_contracted", True) in cs else "target" if ("only_target", True) in cs else "all"
-            sel[k] = U(a.value)
-    ctx.check(rule, ts, sel == {"contracted": "self.contracted", "target": "self.target", "all": "self.idx"},
-              "index restriction honoured", f"index selection {sel}", key="restriction")
-    sp = [n for n in walk_fn(ts, nested=False) if isinstance(n, ast.Assign) and U(n.targets[0]) == "key"] + \
-         [n for n in walk_fn(ts, nested=False) if isinstance(n, ast.If) and "space_and_spin" in U(n.test)]
-    ctx.check(rule, ts, any("s.space_and_spin" in U(n) for n in sp), "permutations only within one (space, spin)",
-              "grouping of the indices changed", key="same space")
-    pm = [a for a in walk_fn(ts, nested=False) if isinstance(a, ast.Assign) and U(a.targets[0]) == "permuted"]
-    ctx.check(rule, ts, len(pm) == 1 and U(pm[0].value) == "self.permute(*perms).sympy", "reported permutation is the one applied",
-              "permuted term changed", key="applied perm")
+    w = World("unrelated", [(1, (X("a", "i"), Z("b", "j"))), (1, (Z("a", "i"), Z("b", "j")))])
+    A, S_ = "AntiSymmetricTensor", "SymmetricTensor"
+    # (arguments, spins of the targets of the terms, expected (class, upper, lower, bra-ket symmetry) | 'raise')
+    cases = [
+        (dict(bra_ket_sym=1), "", (A, "ijab", "", 0), "no explicit targets: everything upper, bra-ket symmetry ignored"),
+        (dict(target_indices="ij,ab", bra_ket_sym=1), "", (A, "ij", "ab", 1), "split at the separator, bra-ket symmetry forwarded"),
+        (dict(target_indices="ij,ab", bra_ket_sym=-1), "", (A, "ij", "ab", -1), "negative bra-ket symmetry forwarded"),
+        (dict(target_indices="ia,jb", bra_ket_sym=1), "", (A, "ia", "jb", 1), "split ia,jb"),
+        (dict(target_indices="ijab"), "", (A, "ijab", "", 0), "no separator: everything upper"),
+        (dict(target_indices="ijab", bra_ket_sym=1), "", "raise", "bra-ket symmetry without a separator"),
+        (dict(target_indices="ij,ab", antisymmetric_result_tensor=False), "", (S_, "ij", "ab", 0), "symmetric result tensor"),
+        (dict(antisymmetric_result_tensor=False), "", (S_, "ijab", "", 0), "symmetric result tensor, no explicit targets"),
+        (dict(target_indices="ij,ab", target_spin="aabb"), "aabb", (A, "ij", "ab", 0), "spin split follows the index split"),
+        (dict(target_indices="ij,ab", target_spin="aa,bb"), "aabb", (A, "ij", "ab", 0), "spin given with a separator"),
+        (dict(target_indices="ija,b", target_spin="aabb"), "aabb", (A, "ija", "b", 0), "uneven split, spin without a separator"),
+        (dict(target_indices="ij,ab", target_spin="aab"), "aabb", "raise", "spin incompatible with the indices"),
+        (dict(target_indices="ij,ab", target_spin="a,abb"), "aabb", "raise", "spin split incompatible with the index split"),
+        (dict(target_indices="ik,ab"), "", "raise", "requested targets are not the targets of the expression"),
+        (dict(target_indices="ij,ab", target_spin="aabb"), "", "raise", "requested spin is not the spin of the targets"),
+    ]
+    for args, spins, want, note in cases:
+        scen = _ExploitScen(w, ANTI4)
+
+        def mk(args=args, spins=spins, scen=scen):
+            ex = scen.expr()
+            tg = tuple(scen.idx(x, spins[k] if spins else "") for k, x in enumerate("ijab"))
+            for t in ex.attrs["terms"]:
+                t.attrs["target"] = tg
+            return dict(expr=ex, **args)
+        what = f"exploit_perm_sym({', '.join(f'{k}={v!r}' for k, v in args.items())})"
+        outs = _run_exploit(ctx, scen, mk, what)
+        if want == "raise":
+            ctx.check(rule, fn, bool(outs) and all(o.kind == "raise" for o in outs), f"{what}: refused ({note})",
+                      f"{what}: accepted although {note}", key=f"refuse {note}")
+            continue
+        o = one_return(ctx, rule, fn, outs, what, key=f"probe shape {note}")
+        if o is None:
+            continue
+        calls = scen.sym_calls
+        if len(calls) != 1:
+            ctx.bad(rule, fn, f"{what}: the symmetry of {len(calls)} probe tensors is requested, expected exactly one", key=f"probe count {note}")
+            continue
+        rec, a2, kw2 = calls[0]
+        sp = {x: (spins[k] if spins else "") for k, x in enumerate("ijab")}
+        got = (rec.attrs["tensor_class"], tuple((x.attrs["name"], x.attrs["spin"]) for x in rec.attrs["upper"]),
+               tuple((x.attrs["name"], x.attrs["spin"]) for x in rec.attrs["lower"]), rec.attrs["bra_ket_sym"])
+        exp = (want[0], tuple((x, sp[x]) for x in want[1]), tuple((x, sp[x]) for x in want[2]), want[3])
+        ctx.check(rule, fn, got == exp and not a2 and not kw2.get("only_contracted"),
+                  f"{what}: probe tensor {exp[0]}(upper {want[1]}, lower {want[2] or '-'}, bra-ket {want[3]}) ({note})",
+                  f"{what}: the symmetry is taken from {got[0]}(upper {got[1]}, lower {got[2]}, bra_ket_sym {got[3]}), "
+                  f"the request declares {exp[0]}(upper {exp[1]}, lower {exp[2]}, bra_ket_sym {exp[3]}) ({note})", key=f"probe {note}")
+    # terms with different target indices
+    scen = _ExploitScen(w, ANTI4)
+
+    def mk2():
+        ex = scen.expr()
+        ex.attrs["terms"][1].attrs["target"] = tuple(scen.idx(x) for x in "ikab")
+        return dict(expr=ex)
+    outs = _run_exploit(ctx, scen, mk2, "exploit_perm_sym[different targets]")
+    ctx.check(rule, fn, bool(outs) and all(o.kind == "raise" for o in outs), "terms with different target indices are refused",
+              "terms with different target indices are accepted", key="refuse different targets")
 
 
-def r10d(ctx):
-    rule = "R10d"
+# ------------------------------------------------------------------------------------------ Term.symmetry / Obj.symmetry
+def _mapping(perms):
+    """label -> label of transpositions applied one after another"""
+    labels = sorted({x for p in perms for x in p})
+    m = {}
+    for x in labels:
+        y = x
+        for p, q in perms:
+            y = q if y == p else p if y == q else y
+        if y != x:
+            m[x] = y
+    return tuple(sorted(m.items()))
+
+
+def _term_worlds():
+    """(name, monomial, index classes {label: (space, spin)}, contracted labels, thorough only)"""
+    V = lambda u, l: F("V", u, l)   # noqa: E731
+    o, v = ("occ", ""), ("virt", "")
+    return [
+        ("V^ab_ij", (V("ab", "ij"),), dict(i=o, j=o, a=v, b=v), "", False),
+        ("V^ab_ij X_k, k with spin", (V("ab", "ij"), F("X", "", "k", "plain")), dict(i=o, j=o, k=("occ", "a"), a=v, b=v), "ij", False),
+        ("V^ab_ij X_k", (V("ab", "ij"), F("X", "", "k", "plain")), dict(i=o, j=o, k=o, a=v, b=v), "jk", False),
+        ("W_ijk symmetric", (F("W", "", "ijk", "sym"),), dict(i=o, j=o, k=o), "ij", False),
+        ("W_ik, k with spin", (F("W", "", "ik", "sym"),), dict(i=o, k=("occ", "a")), "", False),
+        ("A_i B_j C_k", (F("A", "", "i", "plain"), F("B", "", "j", "plain"), F("C", "", "k", "plain")), dict(i=o, j=o, k=o), "", False),
+        ("V^ab_ij Y_i", (V("ab", "ij"), F("Y", "", "i", "plain")), dict(i=o, j=o, a=v, b=v), "i", False),
+        ("V^ab_ij V^ab_kl", (V("ab", "ij"), V("ab", "kl")), dict(i=o, j=o, k=o, l=o, a=v, b=v), "ab", False),
+        ("V^ab_ij V^cd_kl", (V("ab", "ij"), V("cd", "kl")), dict(i=o, j=o, k=o, l=o, a=v, b=v, c=v, d=v), "klcd", True),
+    ]
+
+
+def _term_inline(q):
+    """helpers of the module are evaluated through; the vocabulary (permute, Expr, Permutation, ...) is hooked"""
+    return q.startswith("expr_container:")
+
+
+def r10_term_symmetry(ctx, thorough=False):
+    fn = ctx.model.fn("expr_container:Term.symmetry")
+    n = 0
+    for name, mono, classes, contracted, slow in _term_worlds():
+        if slow != thorough:
+            continue
+        w = World(name, [(1, mono)])
+        labels = sorted(classes)
+        for sel, flags in (("all", {}), ("contracted", dict(only_contracted=True)), ("target", dict(only_target=True))):
+            chosen = [x for x in labels if sel == "all" or (x in contracted) == (sel == "contracted")]
+            pool = {}
+
+            def mk(flags=flags, pool=pool):
+                pool.clear()
+                pool.update({x: index(x, *classes[x]) for x in labels})
+                me = Obj("expr_container:Term", "t0")
+                me.attrs.update(sympy=T("attr", sym("t0"), "sympy"), idx=tuple(pool[x] for x in labels),
+                                contracted=tuple(pool[x] for x in labels if x in contracted),
+                                target=tuple(pool[x] for x in labels if x not in contracted))
+                return dict(self=me, **flags)
+            hooks = {"permute": h_permute, "split_idx_string": lambda sx, a, kw: list(a[0]),
+                     "Permutation": lambda sx, a, kw: tuple(sorted(a, key=lambda x: x.attrs["name"])),
+                     "PermutationProduct": lambda sx, a, kw: tuple(a[0])}
+            sx = Symex(ctx.model, inline=_term_inline, hooks=hooks, what=f"Term.symmetry[{name}]", oracle=make_oracle(lambda: w),
+                       max_steps=5000000)
+            what = f"Term.symmetry[{name}; {sel} indices]"
+            o = one_return(ctx, "R10c", fn, sx.run(fn, mk), what, key=f"{name} {sel} shape")
+            if o is None:
+                continue
+            if not isinstance(o.value, dict):
+                ctx.bad("R10c", fn, f"{what} does not return a dict: {show(o.value)[:200]}", key=f"{name} {sel} return")
+                continue
+            # expected: the stabiliser of the monomial among the permutations of the chosen labels inside one class
+            groups = {}
+            for x in chosen:
+                groups.setdefault(classes[x], []).append(x)
+            per_group = [[dict(zip(g, p)) for p in itertools.permutations(g)] for g in groups.values()]
+            exp = {}
+            for combo in itertools.product(*per_group):
+                m = {k: v for d in combo for k, v in d.items() if k != v}
+                if not m:
+                    continue
+                img = lin_of(1, tuple((nm, kd, tuple(m.get(x, x) for x in up), tuple(m.get(x, x) for x in lo)) for nm, kd, up, lo in mono))
+                if img == w.term(0):
+                    exp[tuple(sorted(m.items()))] = 1
+                elif img == lin_add({}, w.term(0), -1):
+                    exp[tuple(sorted(m.items()))] = -1
+            got = {}
+            bad_sign, outside = [], []
+            for perms, f in o.value.items():
+                try:
+                    pl = [perm_labels(p) for p in (perms if isinstance(perms, tuple) and perms and isinstance(perms[0], tuple) else [perms])]
+                except Uninterpreted:
+                    pl = None
+                if pl is None:
+                    ctx.bad("R10c", fn, f"{what}: key {show(perms)} is not a product of permutations", key=f"{name} {sel} key")
+                    continue
+                m = _mapping(pl)
+                true = w.permuted(0, pl)
+                chi = 1 if true == w.term(0) else -1 if true == lin_add({}, w.term(0), -1) else None
+                if chi != f:
+                    bad_sign.append((pl, f, chi))
+                if any(x not in chosen or classes[x] != classes[y] for x, y in m):
+                    outside.append(pl)
+                got[m] = f
+            n += 1
+            if ctx.want("R10a"):
+                ctx.check("R10a", fn, not bad_sign, f"{what}: every reported factor is the factor of the permuted term",
+                          f"{what}: reports {[(''.join(map(''.join, pl)), f) for pl, f, c in bad_sign][:4]}, but the term is mapped onto "
+                          f"{[c if c is not None else 'another term' for pl, f, c in bad_sign][:4]} times itself", key=f"{name} {sel} factors")
+            if ctx.want("R10c"):
+                ctx.check("R10c", fn, not outside, f"{what}: only the selected indices are permuted, inside one (space, spin) class",
+                          f"{what}: reports {[''.join(map(''.join, pl)) for pl in outside][:4]} which move indices outside the selection "
+                          f"{chosen} or across (space, spin) classes", key=f"{name} {sel} selection")
+                missing = sorted(set(exp) - set(got))
+                ctx.check("R10c", fn, not missing or bool(bad_sign) or bool(outside),
+                          f"{what}: all {len(exp)} symmetries of the term are reported",
+                          f"{what}: the symmetries {missing[:4]} (index mappings) of the term are not reported", key=f"{name} {sel} complete")
+    if not thorough:
+        ctx.floor("R10c", "worlds x selections of Term.symmetry", n, 18)
+        # contradictory request / number
+        hooks = {"permute": h_permute}
+        w = World("V", [(1, (F("V", "ab", "ij"),))])
+        sx = Symex(ctx.model, inline=_term_inline, hooks=hooks, what="Term.symmetry", oracle=make_oracle(lambda: w))
+        me = lambda: Obj("expr_container:Term", "t0", sympy=T("attr", sym("t0"), "sympy"), idx=(), contracted=(), target=())  # noqa: E731
+        outs = sx.run(fn, lambda: dict(self=me(), only_contracted=True, only_target=True))
+        if ctx.want("R10c"):
+            ctx.check("R10c", fn, bool(outs) and all(o.kind == "raise" for o in outs), "Term.symmetry: contradictory restriction refused",
+                      "Term.symmetry accepts only_contracted together with only_target", key="Term.symmetry guard")
+
+
+def r10c_obj_symmetry(ctx):
+    rule = "R10c"
+    fn = ctx.model.fn("expr_container:Obj.symmetry")
+    w = World("obj", [(1, (F("V", "ab", "ij"),))])
+    MARK = sym("SYMMETRY_OF_NEW_TERM")
+    for sel, flags in (("all", {}), ("contracted", dict(only_contracted=True)), ("target", dict(only_target=True))):
+        rec = {}
+
+        def mk(flags=flags, rec=rec):
+            rec.clear()
+            ix = {x: index(x, "occ" if x in "ijk" else "virt") for x in "ijkab"}
+            rec["ix"] = ix
+            me = Obj("expr_container:Obj", "t0")
+            me.attrs.update(sympy=T("attr", sym("t0"), "sympy"), idx=tuple(ix[x] for x in "ijab"), assumptions={"real": True},
+                            term=Obj(None, "term", contracted=tuple(ix[x] for x in "jkb"), target=tuple(ix[x] for x in "ia"),
+                                     idx=tuple(ix[x] for x in "ijkab")))
+            return dict(self=me, **flags)
+
+        def h_expr(sx, a, kw, rec=rec):
+            rec["expr"] = (a[0] if a else kw.get("e"), dict(kw))
+
+            def symmetry(sx, a2, kw2):
+                rec["call"] = (tuple(a2), dict(kw2))
+                return MARK
+            return Obj(None, "new_expr", terms=[Obj(None, "new_term", symmetry=symmetry)])
+        sx = Symex(ctx.model, inline=_term_inline, hooks={"Expr": h_expr}, what="Obj.symmetry", oracle=make_oracle(lambda: w))
+        what = f"Obj.symmetry[{sel} indices]"
+        o = one_return(ctx, rule, fn, sx.run(fn, mk), what, key=f"obj {sel} shape")
+        if o is None:
+            continue
+        want = {"all": "ijab", "contracted": "jkb", "target": "ia"}[sel]
+        e0, kw = rec.get("expr", (None, {}))
+        tg = kw.get("target_idx")
+        got = "".join(x.attrs["name"] for x in tg) if isinstance(tg, (tuple, list)) and all(isinstance(x, Obj) for x in tg) else show(tg)
+        a2, kw2 = rec.get("call", ((), {}))
+        only_t = kw2.get("only_target", a2[1] if len(a2) > 1 else False)
+        only_c = kw2.get("only_contracted", a2[0] if a2 else False)
+        ok = o.value == MARK and e0 == T("attr", sym("t0"), "sympy") and got == want and only_t is True and not only_c
+        ctx.check(rule, fn, ok, f"{what}: target symmetry of the object with the target indices {want}",
+                  f"{what}: returns {show(o.value)[:80]} of an expression of {show(e0)[:60]} with target indices {got} "
+                  f"(symmetry called with {a2} {kw2}); expected the only_target symmetry with the target indices {want}", key=f"obj {sel}")
+    sx = Symex(ctx.model, inline=_term_inline, hooks={}, what="Obj.symmetry", oracle=make_oracle(lambda: w))
+    outs = sx.run(fn, lambda: dict(self=Obj("expr_container:Obj", "t0", sympy=T("attr", sym("t0"), "sympy")), only_contracted=True,
+                                   only_target=True))
+    ctx.check(rule, fn, bool(outs) and all(o.kind == "raise" for o in outs), "Obj.symmetry: contradictory restriction refused",
+              "Obj.symmetry accepts only_contracted together with only_target", key="Obj.symmetry guard")
+
+
+# ------------------------------------------------------------------------------------------ LazyTermMap
+def _sym_inline(q):
+    return q.startswith("symmetry:")
+
+
+def _probe_worlds():
+    """(world, permutations, factor, rule, note)"""
+    A, B, C = (lambda l: F("A", "", l, "plain")), (lambda l: F("B", "", l, "plain")), (lambda l: F("C", "", l, "plain"))
+    pair = [(1, (X("a", "i"), Z("b", "j"))), (-1, (X("a", "j"), Z("b", "i")))]
+    four = [(1, (X("a", "i"), Z("b", "j"))), (-1, (X("a", "j"), Z("b", "i"))), (-1, (X("b", "i"), Z("a", "j"))), (1, (X("b", "j"), Z("a", "i")))]
+    cyc = [(1, (A("i"), B("j"), C("k"))), (1, (A("k"), B("i"), C("j"))), (1, (A("j"), B("k"), C("i")))]
+    return [
+        (World("pair", pair), ("ij",), -1, "R10d", "two terms exchanged by P_ij"),
+        (World("pair-denom", pair, denom=True), ("ij",), -1, "R10d", "terms with a denominator"),
+        (World("four", four), ("ij",), -1, "R10d", "ia/ja/ib/jb under P_ij"),
+        (World("four", four), ("ij", "ab"), +1, "R10d", "ia/ja/ib/jb under P_ij P_ab"),
+        (World("cycle", cyc), ("ij", "ik"), +1, "R10d", "three-cycle: the map differs from its inverse"),
+        (World("cycle", cyc), ("ik", "ij"), +1, "R10d", "the inverse three-cycle"),
+        (World("cycle-minus", [cyc[0], (-1, cyc[1][1]), cyc[2]]), ("ij", "ik"), -1, "R10d", "three-cycle with signs"),
+        (World("wrong-sign-anti", [pair[0], (1, pair[1][1])]), ("ij",), -1, "R10a", "P X = +X' probed with the factor -1"),
+        (World("wrong-sign-sym", pair), ("ij",), +1, "R10a", "P X = -X' probed with the factor +1"),
+        (World("sym", [pair[0], (1, pair[1][1])]), ("ij",), +1, "R10d", "P X = +X' probed with the factor +1"),
+        (World("twice-antisymmetric", [(1, (F("V", "ab", "ij"),)), (1, (F("V", "ab", "ij"),))]), ("ij",), -1, "R10a",
+         "a term with P X = -X listed twice needs no partner under the factor -1"),
+        (World("twice-symmetric", [(1, (F("W", "ab", "ij", "sym"),)), (1, (F("W", "ab", "ij", "sym"),))]), ("ij",), +1, "R10a",
+         "a term with P X = +X listed twice needs no partner under the factor +1"),
+        (World("symmetric-and-negative", [(1, (F("W", "ab", "ij", "sym"),)), (-1, (F("W", "ab", "ij", "sym"),))]), ("ij",), -1, "R10a",
+         "P X = +X = -X' under the factor -1"),
+        (World("self", [(1, (F("V", "ab", "ij"),)), pair[0], pair[1]], invalid=[(2, (("a", "b"),))]), ("ij",), -1, "R10d",
+         "an antisymmetric term next to a pair"),
+        (World("self", [(1, (F("V", "ab", "ij"),)), pair[0], pair[1]], invalid=[(2, (("a", "b"),))]), ("ab",), -1, "R10d",
+         "a permutation annihilating one term"),
+        (World("groups", [pair[0], (1, (F("Q", "ab", "ij", "plain"),)), pair[1], (-1, (F("Q", "ab", "ji", "plain"),)), (1, (F("R", "ab", "ij"),))],
+               groups=["g", "q", "g", "q", "r"]), ("ij",), -1, "R10d", "two classes of terms and a unique term"),
+    ]
+
+
+def _expected_map(w, perms, f):
+    pl = [tuple(p) for p in perms]
+    out = {}
+    n = len(w.terms)
+    for i in range(n):
+        img = w.permuted(i, pl)
+        if not img and w.term(i):
+            continue
+        if img == lin_add({}, w.term(i), f):
+            continue
+        for j in range(n):
+            if j != i and w.groups[j] == w.groups[i] and img == lin_add({}, w.term(j), f):
+                out[i] = j
+                break
+    return out
+
+
+def _termmap_self(w, labels="ijkab"):
+    ix = {x: index(x, "occ" if x in "ijkl" else "virt") for x in labels}
+    groups = {}
+    for i, g in enumerate(w.groups):
+        groups.setdefault(g, []).append(i)
+    pres = tuple((w.denom, list(v)) for v in groups.values() if len(v) > 1)
+    me = Obj("symmetry:LazyTermMap", "self")
+    me.attrs.update(_terms=tuple(term_objs(len(w.terms))), _term_map={}, target_indices=tuple(ix[x] for x in labels),
+                    _prescan_terms=lambda sx, a, kw: pres, _expr=Obj(None, "expr", provided_target_idx=None))
+    return me, ix
+
+
+def r10_probe_symmetry(ctx):
     fn = ctx.model.fn("symmetry:LazyTermMap.probe_symmetry")
-    st = [a for a in walk_fn(fn, nested=False) if isinstance(a, ast.Assign) and U(a.targets[0]).startswith("map_contribution[")]
-    ctx.floor(rule, "term-map stores", len(st), 1)
-    for a in st:
-        key, val = U(a.targets[0].slice), U(a.value)
-        lp_in = enclosing(a, ast.For)
-        lp_out = enclosing(lp_in, ast.For)
-        ok = isinstance(lp_out.target, ast.Tuple) and U(lp_out.target.elts[0]) == key and U(lp_out.iter) == "relevant_terms"
-        perm_var = U(lp_out.target.elts[1]) if ok else "?"
-        sums = [n for n in walk_fn(lp_in) if isinstance(n, ast.BinOp) and isinstance(n.op, (ast.Add, ast.Sub))
-                and perm_var in (U(n.left), U(n.right))]
-        ok = ok and len(sums) == 2 and all(U(s.left) == perm_var and U(s.right) == f"self._terms[{val}]" for s in sums)
-        ctx.check(rule, a, ok, f"map[{key}] = {val}: P term[{key}] equals term[{val}]",
-                  f"the map stores {key} -> {val}, but the compared terms are not (P term[{key}], term[{val}]): the map belongs "
-                  "to another (e.g. the inverse) permutation", key="map direction")
-        ctx.check(rule, a, ("sum.sympy is S.Zero", True) in conditions(a), "stored only when the terms match", "store not dominated by the zero test",
-                  key="map guard")
-    rel = [c for c in calls_in(fn, nested=False) if call_name(c) == "append" and U(c.func.value) == "relevant_terms"]
-    ctx.check(rule, fn, len(rel) == 2 and all(U(c.args[0]) == "(term_i, perm_term)" for c in rel), "permuted term kept with its own index",
-              "pairing of index and permuted term changed", key="pairing")
-    pt = [a for a in walk_fn(fn, nested=False) if isinstance(a, (ast.Assign, ast.AnnAssign)) and U(a.targets[0] if isinstance(a, ast.Assign) else a.target) == "perm_term"]
-    ctx.check(rule, fn, len(pt) == 1 and U(pt[0].value) == "term.permute(*permutations)", "requested permutations applied", "permutation changed",
-              key="permute")
-    sr = [a for a in walk_fn(fn, nested=False) if isinstance(a, ast.Assign) and U(a.targets[0]) == "self._term_map[tuple(permutations), sym_factor]"]
-    ctx.check(rule, fn, len(sr) == 1 and U(sr[0].value) == "map_contribution", "map stored under (permutations, factor)", "store key changed",
-              key="store key")
-    nt = [n for n in walk_fn(fn, nested=False) if isinstance(n, ast.Raise) and any("not in target_indices" in t or "in target_indices" in t
-                                                                                   for t, _ in conditions(n))]
-    ctx.check(rule, fn, len(nt) == 1, "permutations of non-target indices refused", "target check removed", key="targets only")
-    pn = ctx.model.fn("symmetry:Permutation.__new__")
-    body = [U(s) for s in pn.body]
-    ctx.check(rule, pn, body == ["if sort_idx_canonical(p) < sort_idx_canonical(q):\n    args = (p, q)\nelse:\n    args = (q, p)",
-                                 "return super().__new__(cls, args)"], "P_pq = P_qp (canonical order of the pair)", "Permutation.__new__ changed",
-              key="perm canonical")
-    pp = ctx.model.fn("symmetry:PermutationProduct.__new__")
-    a = {U(x.targets[0]): U(x.value) for x in walk_fn(pp) if isinstance(x, ast.Assign)}
-    ctx.check(rule, pp, a.get("splitted") == "cls.split_in_separable_parts(args)" and a.get("args") == "[val for _, val in sorted(splitted.items())]",
-              "products sorted by separable space groups only (order inside a group kept)", "PermutationProduct ordering changed", key="product order")
-    sp = ctx.model.fn("symmetry:PermutationProduct.split_in_separable_parts")
-    ap = [c for c in calls_in(sp) if call_name(c) == "append" and U(c.func.value) == "ret[space]"]
-    ctx.check(rule, sp, len(ap) == 1 and U(ap[0].args[0]) == "perm" and U(enclosing(ap[0], ast.For).iter) == "zip(permutations, perm_spaces)",
-              "permutations appended in their original order", "order inside a group changed", key="group order")
+    hooks = {"permute": h_permute, "factor_eri_parts": h_parts, "factor_denom": h_parts}
+    n = 0
+    for w, perms, f, rule, note in _probe_worlds():
+        if not ctx.want(rule):
+            continue
+        box = {}
+
+        def mk(w=w, perms=perms, f=f, box=box):
+            me, ix = _termmap_self(w)
+            box["self"] = me
+            box["perms"] = tuple((ix[p[0]], ix[p[1]]) for p in perms)
+            return dict(self=me, permutations=box["perms"], sym_factor=f)
+        what = f"probe_symmetry[{w.name}: {note}; {' '.join('P_' + p for p in perms)}, factor {f:+d}]"
+        sx = Symex(ctx.model, inline=_sym_inline, hooks=hooks, what=what, oracle=make_oracle(lambda w=w: w), max_paths=64)
+        o = one_return(ctx, rule, fn, sx.run(fn, mk), what, key=f"{w.name} {perms} {f} shape")
+        if o is None:
+            continue
+        exp = _expected_map(w, perms, f)
+        n += 1
+        ctx.check(rule, fn, o.value == exp, f"{what}: map {exp} = {{i: j | P t_i = {f:+d} t_j}}",
+                  f"{what}: returns the map {show(o.value)[:200]}; in this world P t_i = {f:+d} t_j holds exactly for {exp}"
+                  + (" (the returned map belongs to the inverse permutation)" if isinstance(o.value, dict) and
+                     o.value == {j: i for i, j in exp.items()} and exp else ""), key=f"{w.name} {perms} {f} map")
+        if rule == "R10d":
+            stored = box["self"].attrs["_term_map"]
+            k = (tuple(box["perms"]), f)
+            ctx.check(rule, fn, list(stored) == [k] and stored[k] == o.value, f"{what}: stored under (permutations, factor)",
+                      f"{what}: the term map cache holds {show(stored)[:200]} instead of the map under (permutations, {f})",
+                      key=f"{w.name} {perms} {f} store")
+    if ctx.want("R10d"):
+        ctx.floor("R10d", "worlds of probe_symmetry evaluated", n, 10)
+        w = _probe_worlds()[0][0]
+
+        def mk_bad(kind):
+            def mk():
+                me, ix = _termmap_self(w)
+                if kind == "non-target":
+                    return dict(self=me, permutations=((ix["i"], index("m", "occ")),), sym_factor=-1)
+                return dict(self=me, permutations=((ix["i"], ix["j"]),), sym_factor=2)
+            return mk
+        for kind in ("non-target", "factor"):
+            sx = Symex(ctx.model, inline=_sym_inline, hooks=hooks, what="probe_symmetry", oracle=make_oracle(lambda: w), max_paths=64)
+            outs = sx.run(fn, mk_bad(kind))
+            ctx.check("R10d", fn, bool(outs) and all(o.kind == "raise" for o in outs),
+                      "permutations of non-target indices refused" if kind == "non-target" else "symmetry factors other than +-1 refused",
+                      "probe_symmetry accepts a permutation with a non-target index" if kind == "non-target" else
+                      "probe_symmetry accepts the symmetry factor 2", key=f"probe guard {kind}")
+
+
+def r10c_evaluate(ctx):
+    rule = "R10c"
+    fn = ctx.model.fn("symmetry:LazyTermMap.evaluate")
+    w = _probe_worlds()[0][0]
+    for anti in (True, False):
+        scen = _ExploitScen(w, {("ij",): -1})
+        box = {}
+
+        def mk(anti=anti, box=box):
+            me, ix = _termmap_self(w, "ijab")
+            me.attrs["_term_map"] = {"marker": 1}
+            box["self"], box["ix"] = me, ix
+            return dict(self=me, antisymmetric_result_tensor=anti)
+        sx = Symex(ctx.model, inline=_sym_inline, hooks=scen.hooks(), what="evaluate")
+        sx.on_start = scen.reset
+        what = f"LazyTermMap.evaluate({'anti' if anti else ''}symmetric result)"
+        o = one_return(ctx, rule, fn, sx.run(fn, mk), what, key=f"evaluate {anti} shape")
+        if o is None:
+            continue
+        if len(scen.sym_calls) != 1:
+            ctx.bad(rule, fn, f"{what}: the symmetry of {len(scen.sym_calls)} probe tensors is requested", key=f"evaluate {anti} count")
+            continue
+        rec, a2, kw2 = scen.sym_calls[0]
+        tg = box["self"].attrs["target_indices"]
+        slots = sorted([tuple(rec.attrs["upper"]), tuple(rec.attrs["lower"])], key=len)
+        ok = rec.attrs["tensor_class"] == ("AntiSymmetricTensor" if anti else "SymmetricTensor") and slots[0] == () and \
+            len(slots[1]) == len(tg) and all(x is y for x, y in zip(slots[1], tg)) and rec.attrs["bra_ket_sym"] == 0 and \
+            not kw2.get("only_contracted") and not a2
+        ctx.check(rule, fn, ok, f"{what}: probes a tensor with all target indices in one slot",
+                  f"{what}: probes {rec.attrs['tensor_class']}(upper {show(rec.attrs['upper'])}, lower {show(rec.attrs['lower'])}, "
+                  f"bra_ket_sym {rec.attrs['bra_ket_sym']}); expected the {'anti' if anti else ''}symmetric tensor over the target indices "
+                  f"{show(tg)}", key=f"evaluate {anti}")
+        ctx.check(rule, fn, o.value is box["self"].attrs["_term_map"], f"{what}: returns the term map",
+                  f"{what}: returns {show(o.value)[:100]}", key=f"evaluate {anti} return")
+
+
+# ------------------------------------------------------------------------------------------ Permutation objects
+def r10d_permutation(ctx):
+    rule = "R10d"
+    fn = ctx.model.fn("symmetry:Permutation.__new__")
+    key = lambda x: (x.attrs["space"], x.attrs["spin"], x.attrs["name"])   # noqa: E731
+    hooks = {"sort_idx_canonical": lambda sx, a, kw: key(a[0])}
+    ix = dict(i=("i", "occ", ""), j=("j", "occ", ""), a=("a", "virt", ""), ia=("ia", "occ", "a"), ib=("ib", "occ", "b"), p=("p", "general", ""))
+    for x, y in (("i", "j"), ("a", "i"), ("ia", "ib"), ("p", "a"), ("j", "ia")):
+        res = []
+        for first, second in ((x, y), (y, x)):
+            sx = Symex(ctx.model, inline=_sym_inline, hooks=hooks, what="Permutation")
+            outs = sx.run(fn, lambda: dict(cls=sym("cls"), p=index(*ix[first]), q=index(*ix[second])))
+            o = one_return(ctx, rule, fn, outs, f"Permutation({first}, {second})", key=f"perm {first} {second} shape")
+            v = o.value if o is not None else None
+            payload = None
+            if isinstance(v, T) and v.op == "mcall" and v.args[1] == "__new__" and v.args[2]:
+                payload = v.args[2][-1]
+            res.append(payload)
+        lo, hi = sorted((x, y), key=lambda k: (ix[k][1], ix[k][2], ix[k][0]))
+        # records are frozen to their names: rebuild the expected pair through the same naming
+        exp = (sym(index(*ix[lo]).name), sym(index(*ix[hi]).name))
+        ok = res[0] is not None and res[0] == res[1] and res[0] == exp
+        ctx.check(rule, fn, ok, f"Permutation({x}, {y}) = Permutation({y}, {x}) = canonical pair ({lo}, {hi})",
+                  f"Permutation({x}, {y}) holds {show(res[0])}, Permutation({y}, {x}) holds {show(res[1])}; both must be the pair "
+                  f"({lo}, {hi}) in canonical order", key=f"perm canonical {x} {y}")
+
+
+def _ref_product(perms, cls_of):
+    """Reference: permutations of linked classes keep their order, the groups are ordered by their sorted class names."""
+    parent = {}
+
+    def find(x):
+        parent.setdefault(x, x)
+        while parent[x] != x:
+            x = parent[x]
+        return x
+    for p, q in perms:
+        a, b = find(cls_of[p]), find(cls_of[q])
+        if a != b:
+            parent[a] = b
+    comp = {}
+    for c in list(parent):
+        comp.setdefault(find(c), set()).add(c)
+    groups = {}
+    for p, q in perms:
+        k = "".join(sorted(comp[find(cls_of[p])]))
+        groups.setdefault(k, []).append((p, q))
+    return [x for k in sorted(groups) for x in groups[k]]
+
+
+def r10d_product(ctx):
+    rule = "R10d"
+    fn = ctx.model.fn("symmetry:PermutationProduct.__new__")
+    cls_of = dict(i="o", j="o", k="o", a="v", b="v", c="v", p="g", q="g", I="oa", J="oa", K="ob", L="ob")
+    full = dict(o=("occ", ""), v=("virt", ""), g=("general", ""), oa=("occ", "a"), ob=("occ", "b"))
+    inputs = ["ab ij", "ij ab", "ik ij", "ij ik", "ab ik cb ij", "ik ab ij cb", "ab ia ij", "ij ia ab", "pq ab ia ij", "ab pq ij", "KL ab IJ ij",
+              "IJ KL", "KL IJ", "ab ia ij pq bc", "ij"]
+    mod = ctx.model.module("symmetry")
+    n = 0
+    for text in inputs:
+        perms = [tuple(w_) for w_ in text.split()]
+
+        def mk(perms=perms):
+            pool = {}
+
+            def ix(x):
+                if x not in pool:
+                    pool[x] = index(x, *full[cls_of[x]])
+                return pool[x]
+            return dict(cls=ClassRef(mod, "PermutationProduct"), args=tuple((ix(p), ix(q)) for p, q in perms))
+        sx = Symex(ctx.model, inline=_sym_inline, hooks={}, what="PermutationProduct")
+        o = one_return(ctx, rule, fn, sx.run(fn, mk), f"PermutationProduct({text})", key=f"product {text} shape")
+        if o is None:
+            continue
+        v = o.value
+        payload = v.args[2][-1] if isinstance(v, T) and v.op == "mcall" and v.args[1] == "__new__" and v.args[2] else None
+        try:
+            got = [perm_labels(x) for x in payload]
+        except (Uninterpreted, TypeError):
+            got = None
+        exp = _ref_product(perms, cls_of)
+        n += 1
+        ctx.check(rule, fn, got == exp, f"PermutationProduct({text}) = {' '.join(map(''.join, exp))}",
+                  f"PermutationProduct({text}) holds {' '.join(map(''.join, got)) if got is not None else show(v)[:200]}; permutations of linked "
+                  f"spaces keep their order and independent groups are ordered canonically: {' '.join(map(''.join, exp))}",
+                  key=f"product {text}")
+    ctx.floor(rule, "permutation products evaluated", n, 12)
+
+
+# ------------------------------------------------------------------------------------------ denom_eri_sym, _compare_remainder
+def r10a_denom(ctx):
+    rule = "R10a"
+    fn = ctx.model.fn("eri_orbenergy:EriOrbenergy.denom_eri_sym")
+    # D = (e_j - e_k)-like bracket: odd under P_jk, untouched by P_ab / P_bc, changed by P_ij, annihilated by P_jl (declared)
+    w = World("denominator", [(1, (F("D", "", "jk"),))], invalid=[(0, (("j", "l"),))])
+    eri_sym = {("jk",): 1, ("jk", "ab"): -1, ("ab",): -1, ("bc",): 1, ("ij",): 1, ("ij", "ab"): -1, ("jl",): 1, ("ik", "ij"): -1}
+    exp = {("jk",): -1, ("jk", "ab"): 1, ("ab",): -1, ("bc",): 1, ("ij",): None, ("ij", "ab"): None, ("ik", "ij"): None}
+    SYM = {("ab",): -1}
+    box = {}
+
+    def me(number=False, eri_idx=("a",)):
+        box.clear()
+
+        def symmetry(sx, a, kw):
+            box["call"] = (tuple(a), dict(kw))
+            return dict(SYM)
+        from ..terms import t_mul
+        d = Obj(None, "t0", sympy=t_mul(2, ONE) if number else T("attr", sym("t0"), "sympy"))
+        o = Obj("eri_orbenergy:EriOrbenergy", "self")
+        o.attrs.update(denom=d, eri=Obj(None, "eri", idx=tuple(eri_idx), symmetry=symmetry))
+        return o
+    mk_sx = lambda: Symex(ctx.model, inline=lambda q: q.startswith("eri_orbenergy:"), hooks={"permute": h_permute}, what="denom_eri_sym",   # noqa: E731
+                          oracle=make_oracle(lambda: w))
+    o = one_return(ctx, rule, fn, mk_sx().run(fn, lambda: dict(self=me(), eri_sym=dict(eri_sym))), "denom_eri_sym", key="denom shape")
+    if o is not None:
+        v = o.value if isinstance(o.value, dict) else {}
+        for perms, f in eri_sym.items():
+            name = " ".join("P_" + p for p in perms)
+            how = "annihilates D" if perms not in exp else {1: "P D = +D", -1: "P D = -D", 0: "P D is another bracket"}[
+                0 if exp[perms] is None else exp[perms] * f]
+            if perms not in exp:
+                ctx.check(rule, fn, perms not in v, f"denom_eri_sym: {name} ({how}) is omitted",
+                          f"denom_eri_sym reports {v.get(perms)} for {name} although the permutation annihilates the denominator",
+                          key=f"denom {name}")
+            else:
+                ctx.check(rule, fn, perms in v and v[perms] == exp[perms] and type(v[perms]) is type(exp[perms]),
+                          f"denom_eri_sym: {name} with ERI factor {f:+d}, {how} -> {exp[perms]}",
+                          f"denom_eri_sym reports {v.get(perms, 'nothing')} for {name} (ERI factor {f:+d}, {how}); the common symmetry of "
+                          f"remainder and denominator is {exp[perms]}", key=f"denom {name}")
+    # numeric denominator: the symmetry of the remainder is the answer
+    o = one_return(ctx, rule, fn, mk_sx().run(fn, lambda: dict(self=me(number=True), eri_sym=dict(eri_sym))), "denom_eri_sym[number]",
+                   key="denom number shape")
+    if o is not None:
+        ctx.check(rule, fn, o.value == eri_sym, "denom_eri_sym: numeric denominator -> symmetry of the remainder unchanged",
+                  f"denom_eri_sym with a numeric denominator returns {show(o.value)[:200]}", key="denom number")
+    for number in (True, False):
+        o = one_return(ctx, rule, fn, mk_sx().run(fn, lambda: dict(self=me(number=number), kwargs={"only_contracted": True})),
+                       "denom_eri_sym[on the fly]", key=f"denom fly shape {number}")
+        if o is not None:
+            a, kw = box.get("call", ((), {}))
+            want = dict(SYM) if number else {("ab",): -1}
+            ctx.check(rule, fn, o.value == want and kw == {"only_contracted": True} and not a,
+                      "denom_eri_sym: the symmetry of the remainder is determined with the forwarded restriction",
+                      f"denom_eri_sym without eri_sym returns {show(o.value)[:120]} from symmetry{a}{kw}", key=f"denom fly {number}")
+    outs = mk_sx().run(fn, lambda: dict(self=me(eri_idx=()), kwargs={}))
+    ctx.check(rule, fn, bool(outs) and all(o.kind == "raise" for o in outs), "denom_eri_sym: remainder without indices refused",
+              "denom_eri_sym accepts a remainder without indices and no given symmetry", key="denom guard")
+
+
+def r10a_compare_remainder(ctx):
+    rule = "R10a"
+    ref = "factor_intermediates:_compare_remainder"
+    if not ctx.model.has_fn(ref):
+        raise AnalysisError("anchor function factor_intermediates:_compare_remainder not found")
+    fn = ctx.model.fn(ref)
+    R = (X("a", "i"), Z("b", "j"))
+    R2 = (X("a", "k"), Z("b", "j"))      # the same remainder with another name of a contracted index
+    Q = (Z("a", "i"), Z("b", "j"))
+    from ..terms import summands
+    # (name, terms t0 = remainder, t1 = reference, relabelling, eri parts split, denominators split, expected)
+    cases = [("identical", (1, R), (1, R), False, False, False, 1), ("negated", (-1, R), (1, R), False, False, False, -1),
+             ("equal up to contracted names", (1, R2), (1, R), True, False, False, 1),
+             ("negated up to contracted names", (-1, R2), (1, R), True, False, False, -1),
+             ("different objects", (1, Q), (1, R), False, True, False, None),
+             ("different denominators", (1, R2), (1, R), False, False, True, None)]
+    for name, t0, t1, alias, split_eri, split_den, want in cases:
+        w = World(name, [t0, t1])
+        if alias:
+            w.alias = {mono_canon(R2)[1]: mono_canon(R)[1]}
+
+        def mk():
+            ix = tuple(index(x, "occ") for x in "ij")
+            r = Obj(None, "t0", sympy=T("attr", sym("t0"), "sympy"), terms=[Obj(None, "t0.term", target=ix)])
+            q = Obj(None, "t1", sympy=T("attr", sym("t1"), "sympy"), terms=[Obj(None, "t1.term", target=ix)])
+            return dict(remainder=r, ref_remainder=q, itmd_indices=(index("a", "virt"), index("b", "virt")))
+        hooks = {"factor_eri_parts": (lambda sx, a, kw: summands(a[0])) if split_eri else h_parts,
+                 "factor_denom": (lambda sx, a, kw: summands(a[0])) if split_den else h_parts}
+        sx = Symex(ctx.model, inline=lambda q: q.startswith("factor_intermediates:"), hooks=hooks, what="_compare_remainder", oracle=make_oracle(lambda w=w: w))
+        what = f"_compare_remainder[{name}]"
+        o = one_return(ctx, rule, fn, sx.run(fn, mk), what, key=f"remainder {name} shape")
+        if o is None:
+            continue
+        ctx.check(rule, fn, o.value == want and type(o.value) is type(want), f"{what} -> {want}",
+                  f"{what} returns {show(o.value)}, the factor that maps the remainder onto the reference is {want}", key=f"remainder {name}")
 
 
 def run(ctx):
-    for r, f in (("R10a", r10a), ("R10b", r10b), ("R10c", r10c), ("R10d", r10d)):
-        if ctx.want(r):
-            f(ctx)
+    if ctx.want("R10b"):
+        r10b_partitions(ctx)
+        r10b_filter(ctx)
+    if ctx.want("R10a") or ctx.want("R10b") or ctx.want("R10c"):
+        r10_exploit(ctx)
+    if ctx.want("R10c"):
+        r10c_exploit(ctx)
+        r10c_obj_symmetry(ctx)
+    if ctx.want("R10a") or ctx.want("R10c"):
+        r10_term_symmetry(ctx)
+    if ctx.want("R10a") or ctx.want("R10d"):
+        r10_probe_symmetry(ctx)
+    if ctx.want("R10a"):
+        r10a_denom(ctx)
+        r10a_compare_remainder(ctx)
+    if ctx.want("R10c"):
+        r10c_evaluate(ctx)
+    if ctx.want("R10d"):
+        r10d_permutation(ctx)
+        r10d_product(ctx)
+
+
+def run_thorough(ctx):
+    if ctx.want("R10a") or ctx.want("R10c"):
+        r10_term_symmetry(ctx, thorough=True)
